@@ -10,7 +10,8 @@ is symbolic).  The oracle is the property statement.
 split_by_commas is a six-line wrapper around a pyparsing grammar: bounded
 family only.
 """
-from pyvc.api import (proof, bounded, load, model, fresh_str, fresh_int, pick,
+from pyvc.api import (proof, bounded, load, model, tier, fresh_str, fresh_int,
+                      pick,
                       assume, check, implies, conj, disj, neg, rng)
 
 SU = 'oslo_utils/strutils.py'
@@ -81,9 +82,12 @@ def split_path_contract():
     ul.parse = _NS()
     ul.parse.quote = lambda p: 'quoted'
     model(S, 'urllib', ul)
-    nsegs = pick('segments_including_leading', [1, 2, 3, 4, 5, 6, 7])
+    nsegs = pick('segments_including_leading',
+                 [1, 2, 3, 4, 5, 6, 7] if tier() == 'quick'
+                 else [1, 2, 3, 4, 5, 6, 7, 8, 9])
     segs = [fresh_str('seg%d' % i) for i in range(nsegs)]
-    minsegs = pick('minsegs', [1, 2, 3, 4])
+    minsegs = pick('minsegs', [1, 2, 3, 4] if tier() == 'quick'
+                   else [1, 2, 3, 4, 5, 6])
     maxsegs = pick('maxsegs', [None, 0, minsegs - 1, minsegs, minsegs + 1,
                                minsegs + 2])
     rwl = pick('rest_with_last', [False, True])
